@@ -344,6 +344,7 @@ def storeLine (st : StoreRun) (lineNo : Nat) (line : String) : Except String (St
           | _, _ => "-"
         let unserved := servedOK served' snap
         let outs :=
+          (if get "midpanic" == "1" then [s!"PROPFAIL C12 handle_never_panics {tag} mid={get "mid"} (a read through a handle during the poll panicked)"] else []) ++
           (if !pollFailed && !stale.isEmpty then [s!"PROPFAIL C11 poll_ok_fresh {tag} stale={stale.map (·.name)} snap={showSnap snap} svc={get "svc"} reqs={get "reqs"}"] else []) ++
           (if pollFailed && changedOnFail then [s!"PROPFAIL C11 poll_fail_old {tag} snap={showSnap snap} pre={showSnap (snapOfModel sMid)}"] else []) ++
           (if unserved.isEmpty then [] else [s!"PROPFAIL C11 served_inv {tag} names={unserved}", s!"PROPFAIL C12 really_served {tag} names={unserved}"]) ++
